@@ -40,7 +40,18 @@ func main() {
 		}
 		cfg.Only, cfg.Tier, cfg.Verbose = rf.Replay.Descriptor, "thorough", true
 		acc := ev.NewAcc()
-		diffexec.Run(cfg, acc)
+		if strings.HasPrefix(rf.Replay.Descriptor, "lookalike:") {
+			diffexec.RunLookalikes(cfg, acc)
+			var keep []ev.Violation
+			for _, v := range acc.Violations {
+				if strings.Contains(v.Key, "/"+strings.TrimPrefix(rf.Replay.Descriptor, "lookalike:")+"/") {
+					keep = append(keep, v)
+				}
+			}
+			acc.Violations = keep
+		} else {
+			diffexec.Run(cfg, acc)
+		}
 		os.RemoveAll(work)
 		if len(acc.Violations) > 0 {
 			fmt.Println(acc.Violations[0].Msg)
@@ -52,10 +63,13 @@ func main() {
 	}
 	acc := ev.NewAcc()
 	diffexec.Run(cfg, acc)
+	if *prop == "C02" {
+		diffexec.RunLookalikes(cfg, acc)
+	}
 	os.RemoveAll(work)
 	rule := "programs = every (position x form) of the grammar: 20 statement positions (function tail / non-tail, if-then, early return, else, if/else returns, else-if chain, three-clause / condition-only / range loops, before break/continue, bare blocks, closure body, nested loops, two ifs deep, pointer- and value-receiver method bodies; quick: 11 of them) x all statement and expression forms (arithmetic, comparison and boolean operators per width, conversions, strings, assignment and op-assign to every l-value kind, inc/dec, define/var, multiple assignment and 2/3/4-value destructuring, maps, slices incl. slices of structs, struct values/pointers/nested fields, pointers, calls, methods, recursion, closures, constants, machine primitives, compound statements), each with the whole environment (variables, struct value and pointer, slice, slice of structs, map) observed in the result; each program translated by the real goose, executed natively by Go and on the GooseLang reference interpreter on 28 boundary input vectors; non-trivial = program with at least one input on which Go returns normally; constructs with known translation defects are enumerated in dedicated families never used by core programs"
 	if *prop == "C02" {
-		rule = "catalogue of constructs outside or at the edge of the supported subset (unsupported operators and assignment operators, conversions, slice forms, literals, statement kinds, control-flow shapes, builtin and FFI-package look-alikes ...) x statement positions; per declaration: rejected with a conversion error, or accepted and faithful (same oracle as C01: Go result == GooseLang reference interpretation on 28 input vectors)"
+		rule = "catalogue of constructs outside or at the edge of the supported subset (unsupported operators and assignment operators, conversions, slice forms, literals, statement kinds, control-flow shapes, builtin and FFI-package look-alikes ...) x statement positions, plus 19 look-alike packages (user functions named len/cap/append/copy/delete/panic/new/make, local packages named disk/machine/filesys/log/fmt/sync/util/primitive); per declaration: rejected with a conversion error, or accepted and faithful (same oracle as C01: Go result == GooseLang reference interpretation on 28 input vectors)"
 	}
 	os.Exit(acc.Done(ev.Finish{
 		Prop: *prop, Tier: *tier, Level: "exploration", Start: start, Rule: rule,
@@ -63,4 +77,3 @@ func main() {
 		Extra:       map[string]any{"distinct_nontrivial": len(acc.Sets["nontrivial"])},
 	}))
 }
-
